@@ -40,6 +40,19 @@ def run(tier, seed):
                 top = None
             if not isinstance(top, dict):
                 chk.violation("a JSON value that is not an object was accepted as a credential", f"{kind}-non-object-accepted {type(top).__name__}", rp)
+        if il.startswith("OK") and isinstance(top, dict):
+            # every base64url member of an accepted credential is ASCII text (anything else cannot be "the base64url-decoded member")
+            resp = top.get("response") if isinstance(top.get("response"), dict) else {}
+            for nm, v in [("rawId", top.get("rawId"))] + [(k, resp.get(k)) for k in ("clientDataJSON", "attestationObject", "authenticatorData", "signature", "userHandle")]:
+                if isinstance(v, str) and not v.isascii():
+                    chk.violation(f"member {nm} holds non-ASCII text (no base64url) but the credential was accepted", f"{kind}-undecodable-accepted {nm}", rp)
+                    break
+            # required members must be present under their OWN names
+            need = ["id", "rawId", "response"]
+            need_resp = ["clientDataJSON"] + (["authenticatorData", "signature"] if kind == "auth" else ["attestationObject"])
+            missing = [k for k in need if k not in top] + [k for k in need_resp if k not in resp]
+            if missing:
+                chk.violation(f"credential without required member(s) {missing} accepted", f"{kind}-missing-member-accepted {missing[0]}", rp)
         if wellformed is not None and il != "OK " + wellformed:
             chk.violation("well-formed credential not decoded faithfully", f"{kind}-unfaithful", dict(rp, expected="OK " + wellformed))
         if R:
@@ -118,6 +131,37 @@ def run(tier, seed):
         want = "Y 2 " + fw.ws("usb") + " " + fw.ws("nfc")
         if il.startswith("OK") and want not in il:
             chk.violation(f"transport {t!r} is not a recognised value but changed the parsed transports", "reg-enum-not-exact transports", {"input": d, "impl": il})
+    # 1c. members are recognised under their WebAuthn names only: snake_case / other spellings are unknown members (ignored), never aliases
+    def snake(n):
+        return "".join("_" + c.lower() if c.isupper() else c for c in n)
+    for kind, base in (("auth", {"id": "AQ", "rawId": "AQ", "type": "public-key", "authenticatorAttachment": "platform",
+                                 "response": {"clientDataJSON": "e30", "authenticatorData": "AAAA", "signature": "c2ln", "userHandle": "dWg"}}),
+                       ("reg", {"id": "AQ", "rawId": "AQ", "type": "public-key", "authenticatorAttachment": "cross-platform",
+                                "response": {"clientDataJSON": "e30", "attestationObject": "o2NmbXQ", "transports": ["usb"]}})):
+        ref = one(kind, base)
+        for holder, names in ((None, ["rawId", "authenticatorAttachment"]), ("response", [k for k in base["response"]])):
+            for nm in names:
+                for alias in {snake(nm), nm.lower(), nm.upper(), nm[0].upper() + nm[1:], nm + " "} - {nm}:
+                    # (a) the alias REPLACES the member: as if the member were missing
+                    d = copy.deepcopy(base); tgt = d if holder is None else d[holder]
+                    val = tgt.pop(nm); tgt[alias] = val
+                    d2 = copy.deepcopy(base); tgt2 = d2 if holder is None else d2[holder]; tgt2.pop(nm)
+                    a, b2 = one(kind, d), one(kind, d2)
+                    if a != b2:
+                        chk.violation(f"member spelled {alias!r} is treated differently from an absent {nm!r}", f"{kind}-alias-member {nm}", {"entry": f"parse_{kind}_credential_json", "input": d, "impl": a, "without_it": b2})
+                    # (b) the alias is ADDED with a bad value next to the genuine member: must change nothing
+                    d3 = copy.deepcopy(base); tgt3 = d3 if holder is None else d3[holder]; tgt3[alias] = 12345
+                    c3 = one(kind, d3)
+                    if c3 != ref:
+                        chk.violation(f"unknown member {alias!r} changed the outcome", f"{kind}-unknown-member-not-ignored {nm}", {"entry": f"parse_{kind}_credential_json", "input": d3, "impl": c3, "reference": ref})
+    # 1d. non-ASCII text in the base64url members is no base64url
+    for kind, base in (("auth", {"id": "AQ", "rawId": "AQ", "type": "public-key", "response": {"clientDataJSON": "e30", "authenticatorData": "AAAA", "signature": "c2ln", "userHandle": "dWg"}}),
+                       ("reg", {"id": "AQ", "rawId": "AQ", "type": "public-key", "response": {"clientDataJSON": "e30", "attestationObject": "o2NmbXQ"}})):
+        for holder, nm in [(None, "rawId")] + [("response", k) for k in base["response"]]:
+            for bad in ("\u00e9", "AQID\u00e9", "\u65e5\u672c\u8a9e", "AQ\u2003ID", "AQ\u00a0ID", "\uff21\uff31\uff29\uff24", "AQ\u0000", "\ud83d\ude00AQ"):
+                d = copy.deepcopy(base); (d if holder is None else d[holder])[nm] = bad
+                one(kind, d)
+                one(kind, json.dumps(d))
     # 2. member-wise mutation stream, both parsers, both forms
     base_a = {"id": "AQ", "rawId": "AQ", "type": "public-key", "authenticatorAttachment": "platform",
               "response": {"clientDataJSON": "e30", "authenticatorData": "AAAA", "signature": "c2ln", "userHandle": "dWg"}}
